@@ -47,11 +47,3 @@ def lfnfor(name, long):
 def label(name):
     return dict(t='label', name=name.ljust(11)[:11])
 
-# ---- small standard trees -------------------------------------------------------------------
-
-def tree_T1(w):
-    """the suite's shape: two files, one sub-directory with one file. w = list of window clusters to use"""
-    return [f('README.TXT', [w[0]], 3), f('EMPTY.DAT'), d('TEST', [w[1]], [f('TEST.DAT', [w[2], w[3]], 6)])]
-
-def image(vols, bounds=None):
-    return dict(vols=vols)
